@@ -16,6 +16,7 @@ k of them (None = all sequences up to the horizon).
 * Menus may differ from question to question (a one-element menu is no branching point).
 * `HorizonReached` is raised by `ask` when `horizon` answers have been consumed: it ends that execution, which is
   counted (`horizon_hits`) and still branched on - it is how "only spinners enabled" is kept from hanging a search.
+  A runner may catch it and return a partial outcome: its violations and stats are kept, its key is not a state.
 * A replayed prefix must meet the same questions as the execution it was derived from (same menu size and label
   at every position, every prefix choice in range, the whole prefix consumed).  Anything else is un-owned
   nondeterminism: `ReplayDivergence`, a harness error, never a violation.
@@ -135,8 +136,8 @@ def run_one(runner, prefix, horizon, expect=None, wall=30.0):
     except ExecutionHung:
         raise HarnessError("execution with prefix %r exceeded the %.0f s wall-clock guard after %d answers (hang)"
                            % (tuple(prefix), wall, s.asked))
-    if s.horizon_hit:
-        out = None            # an execution that met the horizon is never a complete outcome
+    if s.horizon_hit and out is not None:
+        out = dict(out, key=None, sample=None)   # an execution that met the horizon is never a complete outcome
     if s.asked < len(s.prefix):
         raise ReplayDivergence("execution consumed %d answers, fewer than its prefix %r: the question the prefix "
                                "branched on was not asked again" % (s.asked, s.prefix))
@@ -178,30 +179,31 @@ class Agg:
         self.samples = []
         self.max_len = 0
         self.unexplored = 0
+        self.cpu_s = 0.0
         self.max_viol, self.max_samples = max_viol, max_samples
 
     def add(self, ex):
         self.schedules += 1
         self.answers += len(ex.taken)
         self.max_len = max(self.max_len, len(ex.taken))
-        if ex.horizon_hit:
-            self.horizon_hits += 1
-            return
-        self.complete += 1
         o = ex.outcome or {}
-        if o.get("key") is not None:
-            self.keys.add(o["key"])
         for k, v in (o.get("stats") or {}).items():
             self.stats[k] = self.stats.get(k, 0) + v
         for v in o.get("violations") or ():
             self.nviol += 1
             if len(self.violations) < self.max_viol:
                 self.violations.append(v)
+        if ex.horizon_hit:
+            self.horizon_hits += 1
+            return
+        self.complete += 1
+        if o.get("key") is not None:
+            self.keys.add(o["key"])
         if len(self.samples) < self.max_samples and o.get("sample") is not None:
             self.samples.append({"choices": list(ex.taken), "outcome": o["sample"]})
 
     def merge(self, other):
-        for k in ("schedules", "complete", "horizon_hits", "answers", "validated", "nviol", "unexplored"):
+        for k in ("schedules", "complete", "horizon_hits", "answers", "validated", "nviol", "unexplored", "cpu_s"):
             setattr(self, k, getattr(self, k) + getattr(other, k))
         self.max_len = max(self.max_len, other.max_len)
         self.keys |= other.keys
@@ -241,6 +243,7 @@ def work(payload):
     horizon, bound, stride, wall, deadline = p["horizon"], p["bound"], p["stride"], p["wall"], p.get("deadline")
     handed_back = []
     n = p.get("offset", 0)
+    c0 = time.process_time()
     if p["one_level"]:
         for prefix, expect in p["items"]:
             ex = run_one(runner, prefix, horizon, expect, wall)
@@ -250,6 +253,7 @@ def work(payload):
                 _validate(runner, ex, horizon, wall)
                 agg.validated += 1
             handed_back += children(ex, len(prefix), bound)
+        agg.cpu_s = time.process_time() - c0
         return agg, handed_back
     stack = [(tuple(a), b) for a, b in reversed(p["items"])]
     while stack:
@@ -265,6 +269,7 @@ def work(payload):
             agg.validated += 1
         ch = children(ex, len(prefix), bound)
         stack.extend(reversed(ch))
+    agg.cpu_s = time.process_time() - c0
     return agg, []
 
 
@@ -322,7 +327,7 @@ def explore(pool, mod, factory, cfg, horizon, bound_deviations=None, validate_st
            "traces_validated_against_impl": total.validated, "violations": total.violations,
            "n_violations": total.nviol, "stats": dict(total.stats), "samples": total.samples, "keys": total.keys,
            "max_sequence_length": total.max_len, "split_rounds": rounds, "unexplored_subtrees": total.unexplored,
-           "exhaustive": total.unexplored == 0, "horizon": horizon, "bound_deviations": bound_deviations,
+           "cpu_s": round(total.cpu_s, 2), "exhaustive": total.unexplored == 0, "horizon": horizon, "bound_deviations": bound_deviations,
            "validate_stride": validate_stride}
     if log:
         log("CX %s: schedules=%d complete=%d horizon_hits=%d states=%d answers=%d validated=%d violations=%d%s"
